@@ -238,7 +238,8 @@ def drive_hypothesis(ctx, body, strategy, max_examples, shrink=True, name=None):
                                      HealthCheck.large_base_example])
     @given(strategy)
     def test(case):
-        if ctx.expired():
+        # the soft budget only stops the *search*; once a failure has been seen the shrink/replay runs must stay deterministic
+        if state["last_fail"] is None and ctx.expired():
             return
         r = run_body(body, case, ctx)
         ctx.account(case, r)
